@@ -26,6 +26,30 @@ Proof. repeat split. Qed.
 
 Definition valid_digits (d : N) : Prop := 1 <= d <= 10.
 
+Lemma decode_secret_no_panic s : decode_secret s <> Panic.
+Proof.
+  unfold decode_secret. destruct (first_bad 0%Z (trim_space s)); [discriminate|].
+  destruct (b32_decode_string _) as [bs [off|]]; discriminate.
+Qed.
+
+(** a validation step yields (true, nil) or (false, err), never anything else *)
+Lemma validate_shape code explen f :
+  f tt <> Panic ->
+  exists k, validate code explen f = (Ok (true, None), k) \/ exists e, validate code explen f = (Ok (false, Some e), k).
+Proof.
+  intros Hf. unfold validate.
+  destruct (negb (zlen code =? explen)%Z); [eexists; right; eexists; reflexivity|].
+  destruct (f tt) as [x|e|]; [|eexists; right; eexists; reflexivity|congruence].
+  destruct (bytes_eqb code x); eexists; [left|right; eexists]; reflexivity.
+Qed.
+
+Lemma validate_cost code explen f : (snd (validate code explen f) <= 1)%nat.
+Proof.
+  unfold validate. destruct (negb (zlen code =? explen)%Z); [simpl; lia|].
+  destruct (f tt) as [x|e|]; try (simpl; lia). destruct (bytes_eqb code x); simpl; lia.
+Qed.
+
+
 Section WithHmac.
   Set Default Proof Using "All".
   Variable hm : alg -> bytes -> bytes -> bytes.
@@ -128,23 +152,6 @@ Section WithHmac.
       + apply bytes_eqb_eq in Eb. split; auto.
       + split; [discriminate|]. intros ->. rewrite bytes_eqb_refl in Eb. discriminate.
     - split; [discriminate|]. intros ->. rewrite hotp_value_length in El. lia.
-  Qed.
-
-  (** a validation step yields (true, nil) or (false, err), never anything else *)
-  Lemma validate_shape code explen f :
-    f tt <> Panic ->
-    exists k, validate code explen f = (Ok (true, None), k) \/ exists e, validate code explen f = (Ok (false, Some e), k).
-  Proof.
-    intros Hf. unfold validate.
-    destruct (negb (zlen code =? explen)%Z); [eexists; right; eexists; reflexivity|].
-    destruct (f tt) as [x|e|]; [|eexists; right; eexists; reflexivity|congruence].
-    destruct (bytes_eqb code x); eexists; [left|right; eexists]; reflexivity.
-  Qed.
-
-  Lemma validate_cost code explen f : (snd (validate code explen f) <= 1)%nat.
-  Proof.
-    unfold validate. destruct (negb (zlen code =? explen)%Z); [simpl; lia|].
-    destruct (f tt) as [x|e|]; try (simpl; lia). destruct (bytes_eqb code x); simpl; lia.
   Qed.
 
   Lemma validate_rfc4226_shape code key cc d algo :
@@ -386,12 +393,6 @@ Section WithHmac.
     destruct (time_counter _ _); try (simpl; lia).
     pose proof (totp_loop_cost (offsets (p_skew pp)) code a a0 (p_digits pp) (p_alg pp) O) as H.
     rewrite offsets_length in H. lia.
-  Qed.
-
-  Lemma decode_secret_no_panic s : decode_secret s <> Panic.
-  Proof.
-    unfold decode_secret. destruct (first_bad 0%Z (trim_space s)); [discriminate|].
-    destruct (b32_decode_string _) as [bs [off|]]; discriminate.
   Qed.
 
   Theorem validate_totp_verdict secret code unix p :
